@@ -549,7 +549,7 @@ GEOMS.update({"H:" + k: v for k, v in HYPER.items()})
 
 
 @obligation(PROP, params=[{"geom": g, "mode": m, "sorter": s,
-                           "_tiers": _Q if (s is None or (g, m) == ("h5out", "tree")) and g != "h4" or (g, m, s) == ("h4", "mps", None) else _T}
+                           "_tiers": _Q if (s is None and g not in ("h4", "h5out")) or (g, m, s) in {("h4", "mps", None), ("h5out", "dense", None), ("h3", "tree", "clustering")} else _T}
                           for g in HYPER for m in ("dense", "mps", "tree") for s in (None, "centrality", "clustering")])
 def hyperinds_resolve(mk, geom, mode, sorter):
     """hyperinds_resolve (every mode / sorter): same value over the same outputs, afterwards no
@@ -804,7 +804,9 @@ def rank_simplify(mk, geom, eqn):
     cache, in place): value incl. the exponent, outputs kept, no tensor of larger rank than before"""
     mk.encodes(tc.TensorNetwork.rank_simplify, tc.Tensor.sum_reduce, tc.Tensor.collapse_repeated, tc.TensorNetwork.strip_exponent,
                tc.TensorNetwork.multiply, tc.tensor_contract)
-    kind = "cplx" if eqn is False else "pos"
+    # symbolic: abs() / sign of the collected scalars needs a determined sign -> positive symbols when norms are
+    # equalized; the numeric cross-run is complex throughout
+    kind = "cplx" if (eqn is False or not mk.sym) else "pos"
     tn, sizes, out = sbuild(mk, geom, kind=kind)
     want = dense(tn, out)
     maxrank = max(t.ndim for t in tn)
@@ -1164,7 +1166,7 @@ def _ca_params():
                 if o.startswith("links") and g not in ("tri", "ring4"):
                     continue
                 quick = (g, tg, o) in {("chain3", "A", "default"), ("chain3", "B", "default"), ("star4", "B", "default"), ("tri", "A", "default"),
-                                       ("tri", "A", "links"), ("chain3", "A", "eqn2"), ("multi", "C", "default"), ("star4", "A", "d1"),
+                                       ("chain3", "A", "eqn2"), ("multi", "C", "default"), ("star4", "A", "d1"),
                                        ("chain3", "A", "left"), ("chain3", "A", "exclude")}
                 out.append({"geom": g, "tag": tg, "opt": o, "_tiers": _Q if quick else _T})
     return out
@@ -1210,7 +1212,7 @@ def canonize_around(mk, geom, tag, opt):
 
 
 @obligation(PROP, params=[{"geom": "hyper3", "tag": "D"}, {"geom": "hyper3", "tag": "A", "_tiers": _T}],
-            rounds=2, rounds2=3, wall_s=250, timeout_s=330, max_rows=60000)
+            rounds=2, wall_s=250, timeout_s=330, max_rows=15000)
 def canonize_around_hyper(mk, geom, tag):
     """canonize_around on a network with a hyper index (a label on three tensors): the spanning tree
     runs through the hyper index (its holders are neighbours), a pairwise QR gauge on it is not a
@@ -1719,3 +1721,22 @@ def hyper_shared_pair(mk, op):
         t2.pair_simplify_(cutoff=0.0, output_inds=out)
     check_value(mk, f"{op} on a pair sharing a bond and a hyper index", t2, out, want, sizes)
     check_flags(mk, f"{op} on a pair sharing a bond and a hyper index", t2)
+
+
+@obligation(PROP, params=[{"method": m, "_tiers": _Q if m == "qr" else _T} for m in ("qr", "svd", "mgs")],
+            rounds=2, rounds2=3, wall_s=250, timeout_s=330, max_rows=60000)
+def isometrize_flagged(mk, method):
+    """TensorNetwork.isometrize on tensors carrying left_inds (here: arbitrary tensors flagged by hand):
+    the promised form - every flagged tensor is an isometry from its left_inds afterwards; unflagged
+    tensors are rejected unless allow_no_left_inds"""
+    mk.encodes(tc.TensorNetwork.isometrize, tc.Tensor.isometrize)
+    tn, sizes, out = build(mk, "chain3", kind="real")
+    mk.raises("isometrize() with an unflagged tensor is rejected", lambda: tn.isometrize(method=method), (ValueError,))
+    t1 = tn.copy()
+    t1["A"].modify(left_inds=("a",))
+    t1["B"].modify(left_inds=("b", "y"))
+    t2 = t1.isometrize(method=method, allow_no_left_inds=True)
+    mk.same("isometrize: labels unchanged", [set(t.inds) for t in t2], [set(t.inds) for t in tn])
+    mk.same("isometrize: flags kept", [t.left_inds for t in t2], [("a",), ("b", "y"), None])
+    check_flags(mk, f"isometrize(method={method})", t2)
+    mk.eq("isometrize: unflagged tensor untouched", t2["C"].transpose(*tn["C"].inds).data, tn["C"].data)
